@@ -37,10 +37,12 @@ macro_rules! check {
 /// outside the region the plain label is used, so any *other* violation is still reported.
 #[macro_export]
 macro_rules! check_kf {
-    ($cond:expr, $label:literal, $kf:literal, $region:expr) => {
+    // `$kflabel` is the complete literal "<label>@KF-n": Kani reports the assertion message as
+    // written in the source, so it must not be assembled with concat!
+    ($cond:expr, $label:literal, $kflabel:literal, $region:expr) => {
         if $crate::macros::focused($label) {
             if $region {
-                assert!($cond, concat!($label, "@", $kf))
+                assert!($cond, $kflabel)
             } else {
                 assert!($cond, $label)
             }
